@@ -525,7 +525,7 @@ func (i *InMemCollector) dealWithSentTrace(ctx context.Context, tr cache.TraceSe
 	}
 	isDryRun := i.Config.GetIsDryRun()
 	keep := tr.Kept()
-	verifEmit("late", "t", sp.TraceID, "kept", keep, "dry_run", isDryRun)
+	verifEmit("late", "t", sp.TraceID, "kept", keep, "dry_run", isDryRun, "span", sp)
 	otelutil.AddSpanFields(span, map[string]interface{}{
 		"keep":      keep,
 		"is_dryrun": isDryRun,
